@@ -575,4 +575,3 @@ func (e *cpEngine) rngBinop(x *ssa.BinOp, a, b cpVal) (cpVal, bool) {
 	}
 	return e.fresh("binop"), true
 }
-
